@@ -3,3 +3,16 @@
 -/
 import D42.Props.C02
 import D42.Props.ValidatorProg
+
+namespace D42
+open CP
+
+/-- the statement sequences of the scalar `Validator.visit_*` methods AS EXTRACTED FROM THE SOURCE accept exactly the
+    conforming values: running the extracted program yields no error iff the value conforms to the scalar schema's
+    declarative meaning (`validateScalar_eq_extracted` composed with `validateScalar_nil_iff`) -/
+theorem extracted_accepts_iff_conforms (env : Env) (k : ScalarS) (a : PyVal) (p : Path) :
+    (run env (viewScalar k) a p (progOf k) []).1 = [] ↔ ConformsScalar env k a := by
+  rw [← validateScalar_eq_extracted]
+  exact validateScalar_nil_iff env k a p
+
+end D42
